@@ -19,7 +19,8 @@ def gen_cases(ctx, n):
     for i in range(n):
         prof = ["mixed", "windows", "assign", "dag", "flat", "mixed", "windows"][i % 7]
         c = mc.gen_history(ctx.rng, prof, nops=ctx.rng.randint(10, 24) if prof == "windows" else None,
-                           values="mixed" if i % 6 == 5 else "int", literals=True)      # 1 in 6 over mixed value types (oracles only)
+                           values="mixed" if i % 6 == 5 else "int", literals=True,
+                           keys="exotic" if i % 8 == 3 else "auto")      # key TYPES (nan, tuples, numpy ints, enums ...) in one case of eight      # 1 in 6 over mixed value types (oracles only)
         lv = mc.leaves_of(c)
         fol = [[ctx.rng.choice(lv), ctx.rng.randint(-9, 9)] for _ in range(3)]
         if i % 3 == 0 and len(c["ops"]) > 3:
